@@ -48,7 +48,7 @@ func ruleIndirectAppendOnly(c *Ctx) {
 	}
 	var fp types.Object
 	if s.Type.Params != nil && len(s.Type.Params.List) > 0 && len(s.Type.Params.List[0].Names) > 0 {
-		fp = s.Info.ObjectOf(s.Type.Params.List[0].Names[0])
+		fp = objOf(s.Info, s.Type.Params.List[0].Names[0])
 	}
 	if fp == nil {
 		c.Undecided(rule, s.Name, "file-parameter", "cannot identify the file parameter")
